@@ -91,14 +91,30 @@ O1(S, T) == First(<<
   <<S.single /\ ~RepoTagsOK(S, T), "O1-repotags: RepoTags of manifest.json is not a plain name:tag naming the exported tag">> >>)
 
 (* ---- O2: the import reproduces the image ------------------------------- *)
-(* I = [ok, objs, top, want]  (want = the digest the import was asked to bring over) *)
-O2(S, I) == First(<<
-  <<~I.ok, "O2-failed: import of a well formed archive failed">>,
-  <<I.top # I.want, "O2-top: target does not name the same top-level digest">>,
-  <<\E d \in Closure(S.edges, I.want) : d \notin Digs(I.objs), "O2-missing: content of the image is missing at the target">>,
-  <<\E d \in Closure(S.edges, I.want) : d \in Digs(I.objs) /\ d \in Digs(S.objs) /\ ShaOf(I.objs, d) # ShaOf(S.objs, d),
+(* I = [ok, objs, top, allow, must]: allow = the digests the import may bring over (the exported image; for an   *)
+(* archive with several index.json entries: what the archive names with exactly the requested tag / name, or the *)
+(* requested digest), must = the import has to succeed.  A failed import is acceptable only when must is FALSE.  *)
+O2(S, I) ==
+  IF ~I.ok THEN (IF I.must THEN "O2-failed: import of a well formed archive failed" ELSE "")
+  ELSE First(<<
+  <<I.top \notin I.allow, "O2-top: target does not name the top-level digest the archive names with the requested tag">>,
+  <<\E d \in Closure(S.edges, I.top) : d \notin Digs(I.objs), "O2-missing: content of the image is missing at the target">>,
+  <<\E d \in Closure(S.edges, I.top) : d \in Digs(I.objs) /\ d \in Digs(S.objs) /\ ShaOf(I.objs, d) # ShaOf(S.objs, d),
     "O2-content: target bytes differ from the source bytes">>,
-  <<\E o \in I.objs : o.d \in Closure(S.edges, I.want) /\ ~Sound(o), "O2-content: target object does not hash to its name">> >>)
+  <<\E o \in I.objs : o.d \in Closure(S.edges, I.top) /\ ~Sound(o), "O2-content: target object does not hash to its name">> >>)
+
+(* selection among several index.json entries.  q = [req, reqtag, ids, refs, reftags, names, nametags]: the      *)
+(* requested tag or name (reqtag = its tag part when it is a full image name, else ""), and per entry its digest, *)
+(* its org.opencontainers.image.ref.name, the tag part of that when it is a full image name (else ""), its        *)
+(* io.containerd.image.name and the tag part of that.  An entry is named "with exactly the requested tag" when    *)
+(* one of these strings IS the request (no suffix / prefix / substring / case folding); the import has to succeed *)
+(* when the ref.name annotation itself is the request (the contract regclient documents), else it may fail.       *)
+SelExact(q, k) == \/ q.refs[k] = q.req \/ q.names[k] = q.req
+                  \/ (q.reftags[k] # "" /\ q.reftags[k] = q.req)
+                  \/ (q.nametags[k] # "" /\ q.nametags[k] = q.req)
+                  \/ (q.reqtag # "" /\ q.refs[k] = q.reqtag)
+SelAllowed(q) == {q.ids[k] : k \in {j \in 1..Len(q.ids) : SelExact(q, j)}}
+SelMust(q) == \E k \in 1..Len(q.ids) : q.refs[k] = q.req
 
 (* ---- O3: Docker-save format archive ------------------------------------ *)
 (* K = [cfg, layers]   J = [ok, found, cfg, layers]  (sha of config bytes, sha of each layer's
@@ -135,8 +151,8 @@ PExport(ok, skip) == /\ st = "tar"
                      /\ st' = "ready"
                      /\ bad' = IF skip THEN "" ELSE IF ~ok THEN "O1-failed: export failed" ELSE O1(src, arc)
                      /\ UNCHANGED <<src, arc, dka, cur>>
-PImpBegin(id, want) == /\ st = "ready"
-                       /\ cur' = [id |-> id, want |-> want, ok |-> FALSE]
+PImpBegin(id, allow, must) == /\ st = "ready"
+                       /\ cur' = [id |-> id, allow |-> allow, must |-> must, ok |-> FALSE]
                        /\ st' = "importing" /\ bad' = ""
                        /\ UNCHANGED <<src, arc, dka>>
 PImpResult(id, ok) == /\ st = "importing" /\ cur.id = id
@@ -146,13 +162,13 @@ PImpResult(id, ok) == /\ st = "importing" /\ cur.id = id
 PImpTarget(id, objs, top, skip) ==
   /\ st = "imported" /\ cur.id = id
   /\ st' = "ready" /\ cur' = None
-  /\ bad' = IF skip THEN "" ELSE O2(src, [ok |-> cur.ok, objs |-> objs, top |-> top, want |-> cur.want])
+  /\ bad' = IF skip THEN "" ELSE O2(src, [ok |-> cur.ok, objs |-> objs, top |-> top, allow |-> cur.allow, must |-> cur.must])
   /\ UNCHANGED <<src, arc, dka>>
 
 PDkArchive(K) == /\ st \in {"idle", "ready", "dkready"}
                  /\ dka' = K /\ src' = None /\ arc' = None /\ cur' = None /\ st' = "dkready" /\ bad' = ""
 PDkBegin(id) == /\ st = "dkready"
-                /\ cur' = [id |-> id, want |-> "", ok |-> FALSE]
+                /\ cur' = [id |-> id, allow |-> {}, must |-> TRUE, ok |-> FALSE]
                 /\ st' = "dkimporting" /\ bad' = ""
                 /\ UNCHANGED <<src, arc, dka>>
 PDkResult(id, ok) == /\ st = "dkimporting" /\ cur.id = id
